@@ -22,7 +22,7 @@ func verifSameBytes(got, want []byte, label string) {
 // H_c03_int: ParseInt32 / ParseInt64 / ParseBool / ParsePointer on L arbitrary bytes.
 func H_c03_int() {
 	which := nondet_choice("which", 4)
-	L := nondet_choice("L", 17)
+	L := nondet_choice("L", verif_bound("parser-buffer-max", 16, 24)+1)
 	buf := nondet_bytes("buf", L)
 	orig := append([]byte(nil), buf...)
 	p := NewParser(buf)
@@ -65,7 +65,7 @@ func H_c03_int() {
 
 // H_c03_bytes: ParseBytes on L arbitrary bytes.
 func H_c03_bytes() {
-	L := nondet_choice("L", 15)
+	L := nondet_choice("L", verif_bound("parser-bytes-buffer-max", 14, 22)+1)
 	buf := nondet_bytes("buf", L)
 	orig := append([]byte(nil), buf...)
 	p := NewParser(buf)
@@ -118,7 +118,7 @@ func verifRefCanRead(buf []byte, types []ReadType) (bool, int) {
 // H_c03_canread: CanIRead(list) <=> every field wholly present; and then the Parse*
 // sequence returns the reference values without clamping.
 func H_c03_canread() {
-	L := nondet_choice("L", 17)
+	L := nondet_choice("L", verif_bound("parser-canread-buffer-max", 16, 22)+1)
 	k := nondet_choice("nfields", 4) // 0..3 fields
 	types := make([]ReadType, k)
 	for i := range types {
